@@ -3,22 +3,32 @@
 Usage: tools/run_neutral.py <dir> [Cxx ...]"""
 import glob, json, os, subprocess, sys
 VERIF = os.path.dirname(os.path.dirname(os.path.abspath(__file__)))
+REPO = os.environ.get("FV_REPO", "/repo")
 d = os.path.abspath(sys.argv[1])
 props = sys.argv[2:] or sorted(p[:-3] for p in os.listdir(os.path.join(VERIF, "props")) if p.startswith("C") and p.endswith(".py"))
 bad = 0
 for diff in sorted(glob.glob(os.path.join(d, "n*.diff"))):
-    st = subprocess.run(["git", "-C", "/repo", "status", "--porcelain"], capture_output=True, text=True).stdout.strip()
+    st = subprocess.run(["git", "-C", REPO, "status", "--porcelain"], capture_output=True, text=True).stdout.strip()
     if st:
         print("refusing: /repo not clean"); sys.exit(2)
-    if subprocess.run(["git", "-C", "/repo", "apply", diff]).returncode != 0:
+    if subprocess.run(["git", "-C", REPO, "apply", diff]).returncode != 0:
         print("%s: DOES NOT APPLY" % diff); continue
     try:
+        import concurrent.futures
+        def run1(pid):
+            return pid, subprocess.run([os.path.join(VERIF, "check"), pid], capture_output=True, text=True)
+        # facts first (one check per configuration), then the rest in parallel (fact cache is digest-locked)
+        first = [p for p in ("C07", "C28") if p in props] or props[:1]
+        results = dict(run1(p) for p in first)
+        with concurrent.futures.ThreadPoolExecutor(max_workers=int(os.environ.get("FV_PAR", "6"))) as ex:
+            for pid, p in ex.map(run1, [p for p in props if p not in results]):
+                results[pid] = p
         for pid in props:
-            p = subprocess.run([os.path.join(VERIF, "check"), pid], capture_output=True, text=True)
+            p = results[pid]
             lines = [l.strip() for l in p.stdout.splitlines() if l.startswith("  rule=") or l.startswith("UNDECIDED")]
             if p.returncode != 0:
                 bad += 1
-            print("%-28s %-4s %s %s" % (os.path.basename(os.path.dirname(diff.rstrip("/"))) + "/" + os.path.basename(diff), pid, "silent" if p.returncode == 0 else "ALARM rc=%d" % p.returncode, "; ".join(lines[:3])))
+            print("%-28s %-4s %s %s" % (os.path.basename(os.path.dirname(diff.rstrip("/"))) + "/" + os.path.basename(diff), pid, "silent" if p.returncode == 0 else "ALARM rc=%d" % p.returncode, "; ".join(lines[:3])), flush=True)
     finally:
-        subprocess.run(["git", "-C", "/repo", "checkout", "--", "."])
+        subprocess.run(["git", "-C", REPO, "checkout", "--", "."])
 print("neutral run: %d alarms" % bad)
